@@ -2,16 +2,21 @@
 is_semi_directed_path; possible_descendants / possible_ancestors = s plus the nodes reachable along such paths."""
 import itertools
 import graphs as gr
+import c16_util as cu
 
 PROP = "C16"
-RULE = ("every mark graph MARKS(n) (each pair one of none,->,<-,<->,--,o-o,o->,<-o), n<=3 quick / n<=3 plus a seeded sample of "
-        "MARKS(4) thorough; on each graph every ordered pair (s,t) and every target set of 1-2 nodes not containing s, "
-        "cutoff in {None,0..n}; is_semi_directed_path on every duplicate-free node sequence and on non-paths (repeats, absent "
-        "node, empty); both ancestry sets of every node; seeded random MARKS graphs n<=7 with sampled queries. Compared: the "
-        "sorted multiset of yielded paths, the booleans, the sets. distinct by canonical graph; non-trivial = some query yields "
-        "a path and some adjacency path is not semi-directed")
+RULE = ("every mark graph MARKS(n) (each pair one of none,->,<-,<->,--,o-o,o->,<-o), n<=3, plus a seeded sample of MARKS(4) (150 quick / "
+        "6000 thorough); on each graph every ordered pair (s,t) and every target set of 1-2 nodes not containing s, "
+        "cutoff in {None,0..n}; target passed as a node, set, frozenset, generator or dict-keys view; is_semi_directed_path on every "
+        "duplicate-free node sequence and on non-paths (repeats, absent node, empty); both ancestry sets of every node; seeded random "
+        "MARKS graphs n<=7 and dense possibly-directed graphs n=5..7 with sampled queries. REPEAT stream (every graph n<=3 with an "
+        "edge, 1/3 of the n=4 sample, 1/4 of the random ones): the PAG is built for a neighbour graph (one pair re-marked or one edge "
+        "re-wired with the same node and edge counts), all queries are run and discarded, the SAME object is edited in place into g "
+        "(read back and checked), then judged; a quarter of these are judged on obj.copy(). Falsy labels \"\", (), frozenset() for "
+        "node 0 on a quarter of MARKS(3). Compared: the sorted multiset of yielded paths, the booleans, the sets. distinct by "
+        "(canonical graph, repeat seed, falsy label); non-trivial = some query yields a path and some adjacency path is not semi-directed")
 EXHAUSTIVE = {"quick": "MARKS(n) n<=3: all graphs, all ordered pairs, all target sets of size<=2, cutoff None,0..n",
-              "thorough": "same (n<=3 exhaustive) + 6000 sampled MARKS(4) graphs with all queries"}
+              "thorough": "same (n<=3 exhaustive; n<=3 also exhaustively in the REPEAT stream) + 6000 sampled MARKS(4) graphs with all queries"}
 TRUSTED = ["MixedEdgeGraph.neighbors / has_edge taken at face value", "model and oracle compared as sorted lists of paths"]
 ASSUMPTIONS = ["default edge-type names", "int labels (label families: C15)",
                "pairs carry one of the eight kinds of the quantifier (no lone circle mark)"]
@@ -43,7 +48,7 @@ def all_queries(n):
         for r in (1, 2):
             for T in itertools.combinations(others, r):
                 for c in cuts:
-                    qs.append([s, list(T), c, 1])  # 1: target passed as a set
+                    qs.append([s, list(T), c, 1 + (len(qs) % 4)])  # 1 set, 2 frozenset, 3 generator, 4 dict keys view
     return qs
 
 
@@ -63,36 +68,73 @@ def all_probes(n):
     return ps
 
 
+def dense_graph(rng, n):
+    """5-7 nodes, many possibly-directed edges: several semi-directed paths per pair, several targets reachable"""
+    kinds = rng.choice([["o-o", "o->", "<-o", "->", "<-", "--"], ["o-o", "--", "->", "<-", "<->"], gr.MARK_KINDS[1:]])
+    p_edge = rng.choice([0.5, 0.65, 0.8])
+    return gr.from_kinds(n, [rng.choice(kinds) if rng.random() < p_edge else "none" for _ in gr.pairs(n)])
+
+
+def random_queries(rng, n, nq=25, nps=40):
+    qs = []
+    for _ in range(nq):
+        s = rng.randrange(n)
+        others = [v for v in range(n) if v != s]
+        if rng.random() < 0.5:
+            T, asset = [rng.choice(others)], 0
+        else:
+            T, asset = sorted(rng.sample(others, rng.choice([1, 2, 3]))), rng.choice([1, 2, 3, 4])
+        c = [] if rng.random() < 0.3 else [rng.randint(0, n)]
+        qs.append([s, T, c, asset])
+    ps = [rng.sample(range(n), rng.randint(1, n)) for _ in range(nps)]
+    return qs, ps
+
+
 def gen_cases(tier, rng):
     for n in (1, 2, 3):
         qs, ps = all_queries(n), all_probes(n)
         for g in gr.enum_marks(n):
             yield {"kind": "marks%d" % n, "g": g, "qs": qs, "ps": ps}
-    if tier != "quick":
-        qs, ps = all_queries(4), all_probes(4)
-        for i in range(6000):
-            g = gr.from_kinds(4, [rng.choice(gr.MARK_KINDS) for _ in gr.pairs(4)])
-            yield {"kind": "marks4s", "g": g, "qs": qs, "ps": ps}
+    # REPEAT stream: the object is built for a neighbour graph, queried, edited in place into g, then judged (c16_util.warm_object)
+    for n in (2, 3):
+        qs, ps = all_queries(n), all_probes(n)
+        for g in gr.enum_marks(n):
+            if g["D"] or g["B"] or g["U"] or g["C"]:
+                yield {"kind": "marks%d-rep" % n, "g": g, "qs": qs, "ps": ps, "rep": rng.randrange(1 << 30)}
+    # falsy labels ("", (), frozenset()) for node 0, as source and as target
+    qs, ps = all_queries(3), all_probes(3)
+    for i, g in enumerate(gr.enum_marks(3)):
+        if i % 4 == 0:
+            yield {"kind": "marks3-falsy", "g": g, "qs": qs, "ps": ps, "falsy": (i // 4) % 3}
+    qs, ps = all_queries(4), all_probes(4)
+    for i in range(150 if tier == "quick" else 6000):
+        g = gr.from_kinds(4, [rng.choice(gr.MARK_KINDS) for _ in gr.pairs(4)])
+        c = {"kind": "marks4s", "g": g, "qs": qs, "ps": ps}
+        if i % 3 == 0:
+            c["rep"] = rng.randrange(1 << 30)
+            c["kind"] = "marks4s-rep"
+        yield c
     for i in range(250 if tier == "quick" else 2500):
         n = rng.randint(4, 7)
         p_edge = rng.choice([0.3, 0.5, 0.7])
         kinds = rng.choice([gr.MARK_KINDS, ["none", "->", "<-", "o-o", "o->", "<-o", "--"], ["none", "o-o", "--", "->", "<-"]])
         g = gr.from_kinds(n, [rng.choice(kinds[1:]) if rng.random() < p_edge else "none" for _ in gr.pairs(n)])
-        qs = []
-        for _ in range(25):
-            s = rng.randrange(n)
-            others = [v for v in range(n) if v != s]
-            if rng.random() < 0.5:
-                T, asset = [rng.choice(others)], 0
-            else:
-                T, asset = sorted(rng.sample(others, rng.choice([1, 2, 3]))), 1
-            c = [] if rng.random() < 0.3 else [rng.randint(0, n)]
-            qs.append([s, T, c, asset])
-        ps = []
-        for _ in range(40):
-            r = rng.randint(1, n)
-            ps.append(rng.sample(range(n), r))
-        yield {"kind": "rand", "g": g, "qs": qs, "ps": ps}
+        qs, ps = random_queries(rng, n)
+        c = {"kind": "rand", "g": g, "qs": qs, "ps": ps}
+        if i % 4 == 0:
+            c["rep"] = rng.randrange(1 << 30)
+            c["kind"] = "rand-rep"
+        yield c
+    for i in range(200 if tier == "quick" else 1500):
+        n = rng.randint(5, 7)
+        g = dense_graph(rng, n)
+        qs, ps = random_queries(rng, n, nq=12, nps=30)
+        qs = [q if q[2] else [q[0], q[1], [rng.randint(1, 4)], q[3]] for q in qs] if n == 7 else qs  # bound the path count
+        c = {"kind": "dense", "g": g, "qs": qs, "ps": ps}
+        if i % 4 == 0:
+            c["rep"] = rng.randrange(1 << 30)
+            c["kind"] = "dense-rep"
+        yield c
 
 
 def encode(case):
@@ -105,19 +147,29 @@ def decode(case, v):
             "desc": {str(n): s for n, s in zip(nodes, v[2])}, "anc": {str(n): s for n, s in zip(nodes, v[3])}}
 
 
-def run_impl(case):
+def as_target(T, asset, lab):
+    """target argument kinds: 0 a node, 1 set, 2 frozenset, 3 generator, 4 dict keys view"""
+    if asset == 0:
+        return lab(T[0])
+    if asset == 2:
+        return frozenset(lab(t) for t in T)
+    if asset == 3:
+        return (lab(t) for t in T)
+    if asset == 4:
+        return {lab(t): None for t in T}.keys()
+    return {lab(t) for t in T}
+
+
+def run_queries(case, P, lab, inv):
     from pywhy_graphs.algorithms import (all_semi_directed_paths, is_semi_directed_path, possible_ancestors,
                                          possible_descendants)
-    P, lab, inv = gr.to_pag(case["g"], case)
     present = set(case["g"]["V"])
     lab2 = lambda v: lab(v) if v in present else ("absent", v)  # noqa: E731
-    before = gr.snapshot(P)
     paths = []
     for s, T, c, asset in case["qs"]:
-        target = {lab(t) for t in T} if asset else lab(T[0])
         cutoff = c[0] if c else None
         try:
-            res = sorted([inv(x) for x in p] for p in all_semi_directed_paths(P, lab(s), target, cutoff=cutoff))
+            res = sorted([inv(x) for x in p] for p in all_semi_directed_paths(P, lab(s), as_target(T, asset, lab), cutoff=cutoff))
         except Exception as e:  # noqa
             res = "exc:" + type(e).__name__
         paths.append(res)
@@ -131,7 +183,15 @@ def run_impl(case):
     for v in case["g"]["V"]:
         desc[str(v)] = sorted(inv(x) for x in possible_descendants(P, lab(v)))
         anc[str(v)] = sorted(inv(x) for x in possible_ancestors(P, lab(v)))
-    return {"paths": paths, "is_semi": sem, "desc": desc, "anc": anc, "mutated": gr.snapshot(P) != before}
+    return {"paths": paths, "is_semi": sem, "desc": desc, "anc": anc}
+
+
+def run_impl(case):
+    P, lab, inv = cu.warm_object(case, cu.build_pag, lambda P, lab, inv: run_queries(case, P, lab, inv))
+    before = gr.snapshot(P)
+    out = run_queries(case, P, lab, inv)
+    out["mutated"] = gr.snapshot(P) != before
+    return out
 
 
 def compare(case, impl, model):
@@ -161,7 +221,7 @@ def nontrivial(case, model):
 
 
 def key(case):
-    return gr.canon(case["g"])
+    return (gr.canon(case["g"]), case.get("rep"), case.get("falsy"))
 
 
 def shrink(case):
